@@ -115,6 +115,7 @@ def run_e1(prop, tier, deadline):
         "pairs_compared": sum_counter(results, "pairs_compared"),
         "stateless_histories": sum_counter(results, "stateless_histories"),
         "silent_suffix_runs": sum_counter(results, "silent_suffix_runs"),
+        "merge_differential_steps": sum_counter(results, "merge_differential_steps"),
         "hidden_state_variants": sum_counter(results, "hidden_state_variants"),
         "configurations": per_cfg,
         "explanation": "Stateful BFS over the reachable states of the real graph objects (values, copied per transition) in lock-step with a std::map reference model; "
